@@ -1,5 +1,6 @@
 import HdModel.Props.C14
 import HdModel.Lemmas.PoolWaiters
+import HdModel.Lemmas.PoolMarker
 /-! # C03 — every request's connection acquisition terminates; nobody is stranded
 
 Step-level theorems about the pool model, valid in **every** state. Together they cover the three
@@ -42,11 +43,18 @@ theorem C03_cancel_releases (s : State) (t : Token) (r : ReqId)
   · show (dropSenders _ _).connecting = _
     rw [dropSenders_connecting]
 
-/-- The owner's drop does cancel: a checkout that owns the marker and goes away without a delayed
-    drop runs `cancel_connection` for its token. -/
-theorem C03_owner_drop_cancels (s : State) (c : Checkout) (h : c.marker = true) :
+/-- The owner's drop does cancel: a checkout whose marker is the one in place (same attempt id) and
+    that goes away without a delayed drop runs `cancel_connection` for its token … -/
+theorem C03_owner_drop_cancels (s : State) (c : Checkout) (h : c.marker = true) (ho : s.owner c.token = c.attempt) :
     cancelIfOwner s c = cancelConnection s c.token := by
-  simp [cancelIfOwner, h]
+  simp [cancelIfOwner, h, ho]
+
+/-- … and nobody else does: a checkout that placed no marker, or whose marker has since been replaced
+    by a later attempt's (its own was removed when somebody provided a shareable connection), leaves the
+    pool's bookkeeping alone when it goes away. -/
+theorem C03_only_owner_cancels (s : State) (c : Checkout) (h : c.marker = false ∨ s.owner c.token ≠ c.attempt) :
+    cancelIfOwner s c = s := by
+  rcases h with h | h <;> simp [cancelIfOwner, h]
 
 /-- **C03 (a released pure waiter resolves with an error instead of hanging).** -/
 theorem C03_released_waiter_resolves (s : State) (r : ReqId) (c : Checkout)
@@ -127,6 +135,60 @@ theorem C03_waiter_poll (s : State) (r : ReqId) (c : Checkout) (hi : c.inner = .
   · simp [pollCheckout, pollWaiter, hw, hp]
   · simp [pollCheckout, pollWaiter, hw, ht, hi]
   · simp [pollCheckout, pollWaiter, hw, he]
+
+/-- **C03 (the attempt a marker stands for is really running), over all reachable states.** Whenever
+    the attempt-in-progress marker of an origin is in place, exactly the checkout that placed it (its
+    attempt id is the one stored with the marker) still runs: it is alive, or a delayed-drop task is
+    carrying its connection attempt on. (`Lemmas/PoolMarker.lean`; with ownership as a plain flag this
+    is false – a checkout whose marker had been removed by somebody else's shareable connection could
+    cancel the marker of a later attempt – which is the defect repaired in 2d583d3.) -/
+theorem C03_marker_has_running_owner (cfg : Config) (ops : List Op) (t : Token)
+    (ht : t ∈ (run (init cfg) ops).1.connecting) :
+    ∃ r c, (run (init cfg) ops).1.co r = some c ∧ c.marker = true ∧ c.token = t ∧
+      c.attempt = (run (init cfg) ops).1.owner t ∧ Running (run (init cfg) ops).1 r c := by
+  have h := run_minv ops (init cfg) (minv_init cfg)
+  obtain ⟨r, hr⟩ := h.own t ht
+  unfold holder at hr
+  cases hco : (run (init cfg) ops).1.co r with
+  | none => rw [hco] at hr; cases hr
+  | some c =>
+    rw [hco] at hr
+    simp only [] at hr
+    split at hr
+    · rename_i hm
+      simp only [Option.some.injEq, Prod.mk.injEq] at hr
+      exact ⟨r, c, hco, hm, hr.1, hr.2, h.run r c (by intro e; cases e) hco hm⟩
+    · cases hr
+
+/-- **C03 (a waiting request waits for something).** In every reachable state, a live checkout that
+    only waits for another request's connection attempt and whose channel is still empty is waiting on
+    an attempt that is really in progress: the checkout that placed the origin's marker is alive or
+    continued by a background task. When that one terminates – with a connection, with an error, or
+    by being dropped – `C03_owner_drop_cancels` / `C03_cancel_releases` / the delivery loop release
+    the waiter; nobody else can take the marker away except by providing a shareable connection, which
+    serves every waiter (`C03_only_owner_cancels`). -/
+theorem C03_waiter_waits_for_running_attempt (cfg : Config) (ops : List Op) (r : ReqId) (c : Checkout)
+    (hco : (run (init cfg) ops).1.co r = some c) (ha : c.alive = true) (hi : c.inner = .waiting)
+    (hch : (run (init cfg) ops).1.chan r = .empty) :
+    ∃ r' c', (run (init cfg) ops).1.co r' = some c' ∧ c'.marker = true ∧ c'.token = c.token ∧
+      Running (run (init cfg) ops).1 r' c' := by
+  have hw := (C03_waiter_only_while_attempt_in_flight cfg ops r c hco ha hi hch).1
+  obtain ⟨r', c', h1, h2, h3, _, h5⟩ := C03_marker_has_running_owner cfg ops c.token (by simpa using hw)
+  exact ⟨r', c', h1, h2, h3, h5⟩
+
+/-- Non-vacuity of the two theorems above, and the repaired defect as a model run: request 1 (HTTP/2)
+    places the marker; request 0's connection turns out to be HTTP/2 by ALPN and removes it; request 1
+    is served by it and its own dial carries on in the background; the connection dies; request 2
+    places a new marker, request 3 waits on it; request 1's background dial fails. The marker of
+    request 2 stays (one entry in `connecting`), request 3 keeps waiting, and a further request does
+    not dial (3 dials in all). -/
+example :
+    let ops : List Op := [.issue 0 0 false, .poll 0, .issue 1 0 true, .poll 1, .dialDone 0 (.ok .alpnH2), .poll 0, .poll 1,
+                          .finish 0, .finish 1, .connClose 0, .issue 2 0 true, .poll 2, .issue 3 0 true, .poll 3,
+                          .dialDone 1 .failConnect, .run, .poll 3, .issue 4 0 true, .poll 4]
+    let s := (run (init { cap := true }) ops).1
+    s.connecting = [1] ∧ s.dialCount = 3 ∧ (run (init { cap := true }) ops).2.getLast? = some .pending := by
+  decide
 
 /-- Non-vacuity: an HTTP/2 attempt with two waiters fails; both waiters get an error at their next
     poll instead of hanging, and a later request starts a fresh attempt. -/
